@@ -87,3 +87,47 @@ PROPERTIES["C16"] = {
     + ["hex::encode / hex::decode replaced by an environment stub: decode returns the harness's arbitrary byte "
        "vector (or an error), i.e. the claim is over every byte vector hex decoding could produce"],
 }
+
+
+VC = ("vector-clocks",)
+
+PROPERTIES["C15"] = {
+    "level": "model_checking",
+    "jobs": [
+        K("c15_laws_3_3", features=VC, timeout=600),
+        K("c15_laws_2_3", features=VC, timeout=600),
+        K("c15_laws_3_1", features=VC, timeout=600),
+        K("c15_lub_2", features=VC, timeout=600),
+        K("c15_extend", features=VC, timeout=600),
+        K("c15_laws_4_4", features=VC, tier="thorough", timeout=1800),
+        K("c15_lub_3", features=VC, tier="thorough", timeout=1800),
+    ],
+    "functions_encoded": [
+        "shuttle_engine::runtime::task::clock::VectorClock::{from, extend, increment, update, get, partial_cmp, clone}",
+    ],
+    "bounds_text": "clock lengths (3,3), (2,3), (3,1) and three clocks of length 2 (quick); (4,4) and three clocks of "
+    "length 3 (thorough); every u32 value in every entry; unwind 6-8",
+    "outside": "clocks longer than 4 entries; the happens-before edges added by the primitives (update_clock / "
+    "increment_clock call sites) are not covered by this check",
+    "rule": "",
+}
+
+
+PROPERTIES["C09"] = {
+    "level": "model_checking",
+    "jobs": [
+        K("c09_dfs_depth2", timeout=900),
+        K("c09_dfs_depth2_gap_ids", timeout=900),
+        K("c09_dfs_depth2_maxiter", timeout=900),
+    ],
+    "functions_encoded": [
+        "shuttle_schedulers::dfs::DfsScheduler::{new, new_execution, next_task, next_u64, has_more_choices}",
+        "shuttle_engine::scheduler::data::fixed::FixedDataSource::{initialize, reinitialize, next_u64}",
+    ],
+    "bounds_text": "every choice tree of depth <= 2 with branching <= 2 (3^3 = 27 trees per query: each internal node "
+    "ends the execution, offers one task or offers two), ids contiguous [0,1] and with a gap [0,2]; iteration bound "
+    "k in 0..=5 symbolic; unwind 6",
+    "outside": "deeper trees / more than two runnable tasks; the check_dfs entry point and Runner loop around the "
+    "scheduler (coroutines); step bounds are covered only in the sense that a tree truncated at depth 2 is a tree",
+    "rule": "",
+}
